@@ -4,6 +4,7 @@ import (
 	"go/ast"
 	"go/token"
 	"go/types"
+	"strings"
 )
 
 func init() {
@@ -48,6 +49,23 @@ func c06(c *Ctx) {
 			_, base := fieldOf(info, recv)
 			okL, whyL := le.Require(s.F, s.N, pathKey(info, base)+resolvePath(ix.Pkg, "SimpleProcessor", ".mu"), true, 0)
 			c.Check(okL, "R1", key, ix.at(s), "s.mu held", "SimpleProcessor exports without its mutex: "+whyL)
+			continue
+		}
+		if strings.HasPrefix(why, "delegation") {
+			// a delegation wrapper makes the wrapped call itself and returns when it has returned: started in a goroutine of
+			// its own the wrapped Export can outlive the wrapper's return, and the export goroutine starts the next one
+			sync := s.F == outer
+			for f := s.F; !sync && f != nil && f.Lit != nil; {
+				if ix.Use[f.Lit] != LitCalled && ix.Use[f.Lit] != LitDefer {
+					break
+				}
+				par := ix.Parent[f.Lit]
+				if par == outer {
+					sync = true
+				}
+				f = par
+			}
+			c.Check(sync, "R1", key, ix.at(s), why+", called synchronously", "the wrapper "+outer.Name+" starts the wrapped Export in a goroutine of its own (or hands it away): it can return while that Export is still running, and the export goroutine then starts the next Export — two Export calls overlap")
 			continue
 		}
 		c.OK("R1", key, ix.at(s), why)
